@@ -155,9 +155,21 @@ impl Space for Crafted {
                 if let Ok(Ok(st)) = subject(|| f.section_data_as_strtab(&h)) {
                     // first string of the view starts at the first byte of the designated range
                     if b > a {
-                        if let Ok(s) = st.get_raw(0) {
-                            if !s.is_empty() && ptr_off(&img, s) != a {
-                                out.violate("wrong-place:ElfBytes::section_data_as_strtab", format!("{ctx}: first string at buffer offset {} instead of {a}", ptr_off(&img, s)));
+                        // every entry of the view is the NUL-terminated run of the designated range
+                        // at that offset (content and place), or an error where the range has none
+                        let range = &img[a..b];
+                        for o in 0..(b - a).min(40) {
+                            let want: Option<&[u8]> = range[o..].iter().position(|x| *x == 0).map(|e| &range[o..o + e]);
+                            let got = st.get_raw(o).ok();
+                            if got != want {
+                                out.violate("wrong-content:ElfBytes::section_data_as_strtab", format!("{ctx}: entry at table offset {o} is {:?}, the designated range holds {:?}", got.map(hex), want.map(hex)));
+                                break;
+                            }
+                            if let Some(s) = got {
+                                if !s.is_empty() && ptr_off(&img, s) != a + o {
+                                    out.violate("wrong-place:ElfBytes::section_data_as_strtab", format!("{ctx}: string at table offset {o} lies at buffer offset {} instead of {}", ptr_off(&img, s), a + o));
+                                    break;
+                                }
                             }
                         }
                         // the view ends with the range: the last byte's string (if NUL-terminated) is inside
